@@ -443,6 +443,24 @@ def run(prop, tier):
         records.append(dict(id=rid, kind="same", a=dg(byname0), b=dg(byname0)))
         index[rid] = dict(label=lab("binary result save / load: flows requested by parameter name"))
         rid += 1
+    # ================= transfers and interactions of a library databook whose tables carry no uncertainty column: an uncertainty entered on the
+    # object is content like any other (it is written and read back)
+    try:
+        import atomica
+
+        Ftb = at.ProjectFramework("%s/tb_framework.xlsx" % atomica.LIBRARY_PATH)
+        Dtb = at.ProjectData.from_spreadsheet("%s/tb_databook.xlsx" % atomica.LIBRARY_PATH, Ftb)
+        for coll in (Dtb.transfers, Dtb.interpops):
+            if coll:
+                k0 = list(coll[0].ts.keys())[0]
+                coll[0].ts[k0].sigma = 0.25
+        Dtb2 = at.ProjectData.from_spreadsheet(Dtb.to_spreadsheet(), Ftb)
+        for key in ("transfers", "interactions"):
+            records.append(dict(id=rid, kind="same", a=dg(data_content(Dtb)[key]), b=dg(data_content(Dtb2)[key])))
+            index[rid] = dict(label=dict(model="tb", what="databook round trip of %s after an uncertainty was entered on the object" % key))
+            rid += 1
+    except Exception as ex:
+        V.violation("C16 databook round trip (tb, uncertainty on a transfer) raised %s" % type(ex).__name__, dict(model="tb", error=str(ex)[:300]))
     # ================= reconciliation is one of the editing operations: the reconciled program set simulates like the program set rebuilt from
     # its own exported program book (its visible content - baselines, outcomes, unit costs - is all there is)
     for name in (["udt"] + (["tb_simple", "hiv"] if thorough else [])):
